@@ -25,7 +25,8 @@ num = st.one_of(
     # scalars are exactly 0 or at least 1e-3 in magnitude: products of denormal-range scalars underflow in ANY float64 arithmetic
     st.floats(-3, 3, allow_nan=False, width=64).map(lambda v: {"num": 0.0 if abs(v) < 1e-3 else v, "kind": "float"}),
     st.floats(-3, 3, allow_nan=False, width=64).map(lambda v: {"num": 0.0 if abs(v) < 1e-3 else v, "kind": "npfloat"}),
-    st.sampled_from([{"num": 0, "kind": "int"}, {"num": 0.0, "kind": "float"}, {"num": -1, "kind": "int"}]))
+    st.sampled_from([{"num": 0, "kind": "int"}, {"num": 0.0, "kind": "float"}, {"num": -1, "kind": "int"}]),
+    st.sampled_from([1e-9, -2e-10, 5e-12, 3e-8, 1e9, -4e11]).map(lambda v: {"num": v, "kind": "float"}))       # tiny / huge (not denormal) coefficients
 
 leaf = st.sampled_from(LEAVES).map(lambda n: {"leaf": n})
 
@@ -149,10 +150,10 @@ def check(c):
         extra.append(sub_o + 2.5)
         extra.append(0.5 * sub_o)
         extra.append(sub_o - 1)
-    for sub_e, sub_o in made[:-1]:
+    for sub_e, sub_o in made[:-1] + made[:-1]:          # two passes: an operand evaluated again AFTER its parents have been evaluated
         w = interp(sub_e, state, samples)
         g = sub_o.apply(state, samples.clone()).double()
-        require(bool(torch.all((g - w).abs() <= 1e-12 * w.abs() + 1e-12)), "operand-changed-by-composition",
+        require(bool(torch.all((g - w).abs() <= 1e-12 * w.abs() + 1e-12 * min(1.0, float(w.abs().max()) + 1e-30))), "operand-changed-by-composition",
                 "an observable that was used as an operand no longer evaluates to its own expression after a larger expression was built from it",
                 operand=str(sub_o), got=g.tolist(), want=w.tolist())
     require(isinstance(obs.name, str) and isinstance(obs.symbol, str) and isinstance(str(obs), str) and isinstance(repr(obs), str), "name/symbol", "name/symbol of a composite must be strings")
@@ -161,7 +162,7 @@ def check(c):
     require(torch.equal(samples, keep), "mutated", "composite.apply modified the batch")
     want = interp(e, state, samples)
     require(isinstance(got, torch.Tensor) and tuple(got.shape) == (len(c["batch"]),), "apply:shape", f"composite.apply returned {type(got).__name__} of shape {getattr(got, 'shape', None)}")
-    require(bool(torch.all((got.double() - want).abs() <= 1e-12 * want.abs() + 1e-12)), "apply:value",
+    require(bool(torch.all((got.double() - want).abs() <= 1e-12 * want.abs() + 1e-12 * min(1.0, float(want.abs().max()) + 1e-30))), "apply:value",
             "composite.apply differs from the same arithmetic applied to the per-sample values of its leaves", got=got.tolist(), want=want.tolist(), symbol=str(obs))
     leaves = set()
     has(e, lambda x: leaves.add(x["leaf"]) if "leaf" in x else False)
